@@ -1123,7 +1123,7 @@ def pool_cases(draw):
             "weights": draw(st.lists(st.integers(1, 40).map(
                 lambda k: k / 8.0), min_size=n, max_size=n)),
             "sources": draw(st.one_of(st.none(), subset)),
-            "targets": draw(st.one_of(st.none(), st.none(), subset)),
+            "targets": draw(st.one_of(st.none(), subset, subset)),
             "nsi": draw(st.sampled_from([True, True, False])),
             "batches": draw(st.one_of(st.none(), st.integers(2, n + 2)))}
 
@@ -1138,5 +1138,5 @@ SUBCHECKS = [
     SubCheck("partitions_random", oracle_partition, gen=partition_cases,
              quick=(4, 150), thorough=(8, 1500)),
     SubCheck("pool", oracle_pool, gen=pool_cases,
-             quick=(2, 3), thorough=(4, 20), timeout=(900, 7200)),
+             quick=(6, 3), thorough=(6, 20), timeout=(900, 7200)),
 ]
